@@ -18,7 +18,10 @@ Init ==
     /\ done = FALSE
     /\ \/ kind = "writer" /\ sc \in [shape : WriterShapes]
        \/ kind = "reader" /\ sc \in [t : ReaderTypes, order : ReaderOrders, version : ReaderVersions,
-                                      sp : ReaderSpellings]
+                                      sp : ReaderSpellings, rep : {1}]
+       \* long files: the item sequence repeated `rep' times (data well beyond any I/O buffer size)
+       \/ kind = "reader" /\ sc \in [t : {"f8", "i2", "u1", "f4"}, order : {"<", ">"}, version : {1, 2},
+                                      sp : {CHOOSE x \in ReaderSpellings : TRUE}, rep : {173}]
        \/ kind = "reject" /\ sc \in [descr : Unsupported, fortran : {FALSE}] \cup [descr : {"<f8", "<i4"}, fortran : {TRUE}]
        \/ kind = "damage" /\ sc \in DamageCases
 
@@ -45,11 +48,12 @@ FileItem(order, le) == IF order = ">" THEN Reverse(le) ELSE le
 ReaderFile ==
     LET items == ReaderItems(sc.t)
         n == Len(items)
-        sh == ReaderShapesFor(n)
+        sh == ReaderShapesFor(n * sc.rep)
         dict == SpelledDict((IF sc.order = "|" /\ ItemSize(sc.t) > 1 THEN "<" ELSE sc.order) \o sc.t, FALSE, sh, sc.sp)
     IN  [version |-> sc.version,
          header |-> NumpyHeader(sc.version, dict),
          shape |-> sh,
+         repeat |-> sc.rep,
          data |-> Flatten([i \in 1..n |-> FileItem(sc.order, items[i])]),
          expect |-> [i \in 1..n |-> ValueJson(Decode(sc.t, sc.order, FileItem(sc.order, items[i])))]]
 
